@@ -114,13 +114,21 @@ CLAIMED.update({
         text='Lean state machine of the object model (registries, copy numbers, origin numbering/back-filling). Theorems: '
              'copy_unique_reachable (in every reachable state, same-named objects of one type added through one logical '
              'file have distinct copy numbers, whatever sets of that type they are in), reference_bytes/objref_bytes (a reference is written as, and decodes to, the target\'s '
-             'identity), origin_backfilled, logical_files_isolated. Tie: histories of add_* calls (valid/rejected, '
-             'interleaved over logical files) on the real API vs the state machine; oracle: unique identities, origin '
-             'fields and reference resolution in the decoded files (history and whole-file streams).',
+             'identity), origin_backfilled, logical_files_isolated; write-time checks (Model/Checks.lean: check_objects of '
+             'every logical file, then origin / shared-set checks, over the state machine plus reference edges): '
+             'accepted_references_resolve (in every reachable state that write accepts, every object held by an attribute - '
+             'a frame\'s channels included - was added through its holder\'s logical file, is emitted in a set record of that '
+             'logical file and is the only object there with its type, name and copy number), foreign_reference_refused, '
+             'own_references_accepted (no false refusals), frame_channels_registered. Tie: histories of add_* calls '
+             '(valid/rejected, interleaved over logical files) on the real API vs the state machine; reference histories '
+             '(references assigned within and across logical files through the public setters; what write answers vs '
+             'acceptWrite, error kind included); oracle: unique identities, origin fields and reference resolution in the '
+             'decoded files (history, reference-history and whole-file streams).',
         note='The former known finding (copy numbers per set object, duplicates across differently named sets) is repaired '
-             'in /repo (fix eaf1436) and the theorem now holds per logical file. PARTIAL: that a reference target lies in '
-             'the same logical file and is of the type its attribute denotes is refused by the code and checked by '
-             'exhaustive streams over the pinned schema, not proved.',
+             'in /repo (fix eaf1436) and the theorem now holds per logical file. PARTIAL: that a reference target is of the '
+             'type its attribute denotes is refused by the converters (C05 / C12 theorem reference_rejects_other_type) and '
+             'checked here by an exhaustive stream over the pinned schema; the reference edges of the checks model are '
+             'read off the specification, FILE-ID values are a parameter of it.',
         technique='Lean 4 proof (invariant by induction over operation histories) + history correspondence + file oracle',
         design='§5 C07'),
     'C09': dict(
